@@ -88,7 +88,8 @@ def process_top(job):
         out['used'] = sorted(res.used)
         out['feas_checks'] = res.feas_checks
         out['undecided'] = sorted(set(res.undecided))
-        if res.normal_paths == 0 and not res.exc_paths and not res.undecided:
+        never_returns = bool(getattr(top, 'extra', {}).get('native_run_for'))  # a task that loops for ever by design (its iterations end in loop cuts)
+        if res.normal_paths == 0 and not res.exc_paths and not res.undecided and not (never_returns and res.paths > 0):
             # every path died as infeasible (e.g. the assumed contract of a callee contradicts the state): nothing was proved
             out['undecided'].append('no feasible path reaches the end of the function: the check would be vacuous')
         # contract kwarg solver_procs=1: discharge in-process (forking a solver pool costs seconds per entry, which
